@@ -16,6 +16,8 @@ func init() {
 		NotDecided: []string{"library semantics of strings.Contains / regexp / netip", "distinct (not implemented by the engine)", "that the storage evaluates offloaded filters correctly (the engine re-checks them, so only completeness of the storage matters: C02)"},
 		Technique:  "SSA summary/typestate analysis of the Processor implementers (line/keep contract), enum-table chain extraction over feasible paths from parser tokens to built matchers, finite-case truth tables, dominance and path rules on the offload scan and the per-record pipeline",
 		Rules: func(r *Run) {
+			ruleIPScanStarts(r)
+			ruleSetClearedPerRecord(r)
 			ruleLPClass(r, nil)
 			ruleLPDrop(r)
 			ruleCHParseOps(r)
